@@ -448,14 +448,21 @@ func floatText(f float64) string {
 // ---------------------------------------------------------------- evaluation
 
 type chunkReader struct {
-	data   []byte
-	chunks []int
-	i      int
+	data        []byte
+	chunks      []int
+	i           int
+	eofWithData bool // the final read returns its bytes together with io.EOF (allowed by io.Reader, done by http bodies)
+	emptyReads  bool // every other read returns (0, nil) (allowed by io.Reader)
+	calls       int
 }
 
 func (c *chunkReader) Read(p []byte) (int, error) {
+	c.calls++
 	if len(c.data) == 0 {
 		return 0, io.EOF
+	}
+	if c.emptyReads && c.calls%2 == 0 {
+		return 0, nil
 	}
 	n := len(p)
 	if len(c.chunks) > 0 {
@@ -473,14 +480,29 @@ func (c *chunkReader) Read(p []byte) (int, error) {
 	}
 	copy(p, c.data[:n])
 	c.data = c.data[n:]
+	if c.eofWithData && len(c.data) == 0 {
+		return n, io.EOF
+	}
 	return n, nil
 }
 
+// srcReader: chunks is the read-size schedule (cycled); an entry 0 asks for "last bytes together with io.EOF", an entry -1 for empty reads in between
 func srcReader(src string, chunks []int) io.Reader {
 	if len(chunks) == 0 {
 		return strings.NewReader(src)
 	}
-	return &chunkReader{data: []byte(src), chunks: chunks}
+	r := &chunkReader{data: []byte(src)}
+	for _, k := range chunks {
+		switch {
+		case k == 0:
+			r.eofWithData = true
+		case k < 0:
+			r.emptyReads = true
+		default:
+			r.chunks = append(r.chunks, k)
+		}
+	}
+	return r
 }
 
 func parseSrc(src string, chunks []int) (prog *ast.Program, err error, panicText string) {
